@@ -150,6 +150,25 @@ def curated_behaviour():
         ('A', 'struct', [(None, ('named', [('states', T('X')), ('nodes', N('B'))]))]),
         ('B', 'struct', [(None, ('named', [(None, T('X')), ('t0', T('X'))]))])]))
     specs.append(G('P', [('A', 'u32')], [('P', 'struct', [(None, ('tuple', [(True, T('A')), (True, T('A'))]))])]))
+    # nullable only through a chain, declared before its definition, between a nonterminal and a terminal
+    specs.append(G('S', [('A', '()'), ('X', 'u32')], [
+        ('Head', 'struct', [(None, ('named', [(None, T('A'))]))]),
+        ('S', 'struct', [(None, ('named', [('a', N('Head')), ('c', N('C')), (None, T('X'))]))]),
+        ('C', 'struct', [(None, ('named', [('d', N('D'))]))]),
+        ('D', 'struct', [(None, ('named', [('b', N('B'))]))]),
+        ('B', 'struct', [(None, ('empty',))])]))
+    specs.append(G('Doc', [('Word', 'u32'), ('Bang', '()'), ('Semi', 'u32')], [
+        ('Doc', 'struct', [(None, ('named', [('head', T('Word')), ('mods', N('Mods')), ('trailer', N('Trailer'))]))]),
+        ('Mods', 'enum', [('Nil', ('empty',)), ('Cons', ('tuple', [(True, T('Bang')), (True, N('Mods'))]))]),
+        ('Trailer', 'enum', [('Semi', ('tuple', [(True, T('Semi'))])), ('None', ('tuple', [(True, N('Blank'))]))]),
+        ('Blank', 'struct', [(None, ('tuple', [(True, N('Nothing'))]))]),
+        ('Nothing', 'struct', [(None, ('empty',))])]))
+    # two contexts whose item-set cores are a strict prefix of one another
+    specs.append(G('S', [('P', '()'), ('Q', '()'), ('X', 'u32'), ('Y', 'u32'), ('Z', 'u32')], [
+        ('S', 'enum', [('P', ('tuple', [(True, T('P')), (True, N('A'))])), ('Q', ('tuple', [(True, T('Q')), (True, N('C'))]))]),
+        ('C', 'enum', [('A', ('tuple', [(True, N('A'))])), ('B', ('tuple', [(True, N('B'))]))]),
+        ('A', 'struct', [(None, ('tuple', [(True, T('X')), (True, T('Y'))]))]),
+        ('B', 'struct', [(None, ('tuple', [(True, T('X')), (True, T('Z'))]))])]))
     return specs
 
 
@@ -397,14 +416,14 @@ def validate_real_tables(tag, entries):
 
 def behaviour_check(ctx, pid):
     res = Result()
-    ng = ctx.n(18, 200)
+    ng = ctx.n(30, 300)
     grammars = []
     for g in curated_behaviour():
         s = gen.render(ctx.rng, g, 'plain')
         x = vlib.run_rust('gen', checks.hex_lines([s]))[0]
         if x.startswith('Ok(x'):
             grammars.append((g, s, x))
-    grammars += accepted_grammars(ctx, ng, behaviour=True, max_nts=5, max_terms=4)
+    grammars += accepted_grammars(ctx, ng, behaviour=True, max_nts=4, max_terms=4, motifs=0.7)
     inputs = [inputs_for(ctx, g, ctx.n(12, 60), ctx.n(20, 120), ctx.n(8, 60), exhaustive_len=ctx.n(3, 6)) for g, _, _ in grammars]
     srcs = [s for _, s, _ in grammars]
     # implementation: compile the real emitted text and run it
